@@ -48,7 +48,6 @@ theorem round_trip_inv_nat (y : Int) (mm dd : Nat) (hy : -32768 ≤ y ∧ y ≤ 
     (hd : 1 ≤ dd ∧ dd ≤ 31) (hv : dd ≤ Spec.monthLength y mm) :
     Gen.civil_from_days (Gen.days_from_civil y (mm : Int) (dd : Int)) = (y, (mm : Int), (dd : Int)) := by
   obtain ⟨e1, e2, e3⟩ := days_eq y mm dd hy hm hd hv
-  simp only at e1 e2 e3
   generalize hy1 : y - (if mm ≤ 2 then 1 else 0) = y1 at *
   generalize hyoe : (y1 % 400).toNat = yoe at *
   generalize hdoe : N.dfcDoe yoe (N.dfcDoy mm dd) = doe at *
